@@ -28,7 +28,7 @@ CHECKS = {
           "re-loads behind a seq_cst fence on every path from the 16-bit stores with the 2^16 threshold, every USE_FUTEX_WAKE=true "
           "public entry reaches a waiter check after each version store on all paths, and the timed exclusive pop only waits with the "
           "caller's deadline. Each is a necessary condition: breaking it yields a 3-step window with a sleeper never woken, which the "
-          "100 ms-sleep tests cannot hit. Global deadlock freedom and kernel futex behaviour are not decided. Also: no path from the futex wait back to itself avoids the recomputation of the remaining time (R5e).",
+          "100 ms-sleep tests cannot hit. Global deadlock freedom and kernel futex behaviour are not decided. Also: no path from the futex wait back to itself avoids the recomputation of the remaining time (R5e). Also: the flag-less clear() moves slots through a waking operation (R4f).",
   "note": "Trusted: kernel futex compare-and-block semantics; clang 14 CFG; x86-64 branch of the sources.",
   "technique": "static analysis: edge-guard / must-pass-through / provenance rules over inlined CFG facts (custom libTooling extractor)"},
  "C04": {
@@ -116,7 +116,7 @@ CHECKS = {
           "element count and empty() is not answered from the head alone (all three violated by the original tree: finding F1, replayed "
           "and fixed); rebuild paths iterate through begin()/end() and size the target from size(); user-provided move/swap members "
           "transfer every field. None of the unit tests iterates, copies or reserves a set that grew from the default state. Equality "
-          "with std::unordered_set over histories is not decided. Also: a table iterator is compared only with the end() of the table it came from (R8).",
+          "with std::unordered_set over histories is not decided. Also: a table iterator is compared only with the end() of the table it came from (R8). Also: total_size counts the table whose successor it has just examined (R2c).",
   "note": "Trusted: clang 14 CFG; the fixed table's own iteration (find_first_non_empty) is not analysed.",
   "technique": "static analysis: traversal-progress, flow-sensitive provenance, special-member completeness and who-sizes-from-what rules over CFG facts"},
  "C06": {
@@ -152,7 +152,7 @@ CHECKS = {
           "exactly when invoke refused, submit(CoroutineTask) binds the executor first and destroys the frame exactly on refusal; the "
           "sleeping global pop is woken by every global push and the non-atomic local push is reachable only behind is_running_in() "
           "through the thread-local queue. A dropped task shows only as a future that never becomes ready. That an accepted task runs "
-          "under every interleaving with steal/balance is not decided. Also: a task stolen inside the per-block steal sweep is dispatched before any further pop into the same variable, across callback invocations and after the sweep (R3e/R3f). Also: enqueue_task reports success only behind a blocking push or the success edge of a try_push (R3g). The queue re-size clause C01.R11 is evaluated on this component's queue instantiation (Q1).",
+          "under every interleaving with steal/balance is not decided. Also: a task stolen inside the per-block steal sweep is dispatched before any further pop into the same variable, across callback invocations and after the sweep (R3e/R3f). Also: enqueue_task reports success only behind a blocking push or the success edge of a try_push (R3g). The queue re-size clause C01.R11 is evaluated on this component's queue instantiation (Q1). Also: the new-thread executor counts a task before its thread exists and un-counts it after it ran; join() returns only on an acquire observation of zero (R7).",
   "note": "Trusted: clang 14 CFG; std::thread; the bounded queue (C01/C02). Observation O4 (coroutine execute ignores a refused submit) is outside the quantifier and not armed.",
   "technique": "static analysis: scope-dominance, ordering, switch exhaustiveness over the enum's enumerators, edge-guard and who-may-call pairing rules over CFG facts"},
  "C16": {
